@@ -32,11 +32,11 @@ PROPS["C13"] = dict(
 )
 
 PROPS["C14"] = dict(
-    jobs=[dict(variant="asan", shards=3), dict(variant="rel", shards=3)],
+    jobs=[dict(variant="asan", shards=5), dict(variant="rel", shards=5)],
     rule="one case = one table entry compared with bit-serial GF arithmetic (gf.c); every index each array has is visited; "
          "non-trivial = the entry has a field meaning (log[0], inv[0] and log indices >= 2^m are recorded only)",
     exhaustive={"quick": True, "thorough": True},
-    exhaustive_subspaces={"quick": ["all entries of the 3 table sets"], "thorough": ["all entries of the 3 table sets"]},
+    exhaustive_subspaces={"quick": ["all entries of the 3 table sets; the generated set again after a 2nd and a 3rd of_rs_init"], "thorough": ["all entries of the 3 table sets; the generated set again after a 2nd and a 3rd of_rs_init"]},
     budget_s={"quick": 300, "thorough": 300},
     require_counters={"any": {"entries_checked": 2 * (16 * 16 + 16 * 256 + 2 * 65536)}},
     assumptions=["tables are observed by header inclusion (static const) and translation-unit inclusion (generated tables)"],
@@ -255,7 +255,7 @@ _LINES = {
          ("it_decoding/of_it_decoding.c", "of_linear_binary_code_decode_with_new_symbol (ofcb, const_term, decoded_symbol_esi);", "step 3: re-injection of a rebuilt repair symbol")],
  "C11": [("ml_decoding/of_ml_decoding.c", "void	*app_buf = ofcb->decoded_source_symbol_callback", "callback for a symbol recovered by Gaussian elimination")],
 }
-PROPS["C14"]["reach_shards"] = [0, 1, 2]
+PROPS["C14"]["reach_shards"] = [0, 1, 2, 3, 4]
 PROPS["C19"]["reach_shards"] = [0, 1, 2, 3]
 PROPS["C19"]["require_counters"]["quick"]["reduction_boundary_steps_checked"] = 2 * 70000
 PROPS["C19"]["require_counters"]["thorough"]["reduction_boundary_steps_checked"] = 70000
